@@ -3,7 +3,7 @@ NOT_APPLICABLE = {}
 TB = "Trusted: Go toolchain packages go/parser, go/scanner, go/format, go/types, go/constant, strconv, reflect; pgregory.net/rapid v1.3.0."
 CHECKS = {
  "C20": {
-  "text": "Generated-history search: rapid draws append/clone histories (<=60 steps quick, <=120 thorough, appends of 0-9 items through fifteen builder methods incl. Case / Default alone with a Block appended later, chains of up to 130 clones of clones so capacity is and is not exhausted, clones also taken inside Do callbacks, statements added to statements); after every step every live statement is rendered and compared with a list model. No counter-example among the generated histories; absence is not established.",
+  "text": "Generated-history search: rapid draws append/clone histories (<=60 steps quick, <=120 thorough, appends of 0-9 items through fifteen builder methods incl. Case / Default alone with a Block appended later, chains of up to 130 clones of clones so capacity is and is not exhausted, clones also taken inside Do callbacks, statements added to statements, statements handed to a group with tokens chained onto what Group.Add returns, one caller slice holding a nil handed to a variadic construct on two statements); after every step every live statement is rendered and compared with a list model. No counter-example among the generated histories; absence is not established.",
   "note": TB + " The model accepts a live-view or a snapshot semantics of Clone, since the property allows either, but one and the same for every clone of a history.",
   "technique": "stateful property-based testing (rapid) against a list model",
  },
@@ -43,7 +43,7 @@ CHECKS = {
   "technique": "exhaustive enumeration of std packages + property-based testing (rapid) with a go/types oracle; differential check of gennames output against package clauses",
  },
  "C19": {
-  "text": "Enumerated cross product (5.4k cases) of C introductions x preamble lists x other imports x prefix x hints x reference order, plus generated preamble texts (one case in four with a detached C snippet rendered against the File first): parsed output must have exactly one unnamed import of \"C\", all C references qualified by C, and with a preamble an import declaration of its own whose doc comment is the preamble (text compared on the NoFormat twin) ending on the line directly above.",
+  "text": "Enumerated cross product (about 6k cases) of C introductions x preamble lists x other imports x prefix x hints x reference order, plus generated preamble texts (texts that start with a line break included; one case in four with a detached C snippet rendered against the File first): parsed output must have exactly one unnamed import of \"C\", all C references qualified by C, and with a preamble an import declaration of its own whose doc comment is the preamble (text compared on the NoFormat twin) ending on the line directly above.",
   "note": TB + " Raw-form preamble texts are well-formed comments.",
   "technique": "exhaustive cross-product enumeration + property-based testing (rapid) over preamble texts with go/parser / go/types structure oracles",
  },
@@ -53,53 +53,53 @@ CHECKS = {
   "technique": "differential property (formatted vs gofmt of NoFormat twin) over rapid-generated trees, damaged programs and native fuzzing",
  },
  "C07": {
-  "text": "Generated search over map-rich recipes (nested Dicts with qualified keys competing for names, multi-key Tags, ImportNames tables of up to 200 entries, import sets) plus random trees and programs: each recipe is rebuilt and rendered 12 (thorough 40) times in-process and one in 20 also in 4 (16) separate processes; all results must be byte-identical; File.GoString and File.Save (over a longer existing file) must give the bytes File.Render gives; every third rebuild hands one reused map object to all ImportNames calls and scribbles over it before rendering. Map orders are sampled, not enumerated.",
+  "text": "Generated search over map-rich recipes (nested Dicts with qualified keys competing for names, multi-key Tags, ImportNames tables of up to 200 entries, import sets) plus cgo Files with C next to 0..2 other imports, random trees and programs: each recipe is rebuilt and rendered 12 (thorough 40) times in-process and one in 20 also in 4 (16) separate processes; all results must be byte-identical; File.GoString and File.Save (over a target that already holds a near variant of the output) must give the bytes File.Render gives; batches of 3..8 recipes with literal tables are built and rendered at once on goroutines of their own and compared with the same construction done alone; every third rebuild hands one reused map object to all ImportNames calls and scribbles over it before rendering. Map orders are sampled, not enumerated.",
   "note": TB + " The Go runtime chooses map iteration order; an order leak over k entries survives R rebuilds with probability <= 2^-(R-1) per case.",
   "technique": "metamorphic property (rebuild-and-compare, in-process and cross-process) over rapid-generated recipes",
  },
  "C08": {
-  "text": "Stateful generated search: histories of add / File.Render / Statement.RenderWithFile / Group.RenderWithFile / ImportName / ImportAlias / Anon / PackagePrefix over one File and a pool of statements (case blocks with nil, null, empty and captured bodies, Dicts with qualified keys); invariants after every step: back-to-back renders equal, unchanged objects render as before, qualifier per path fixed at first sighting, the File's import block declares every sighted path under the modelled name and resolves through go/types; fragments that cannot be formatted fail the same way every time and leave nothing behind; File renders go through Render, GoString or Save; a group kept from a ...Func callback and filled after early renders shows its items.",
+  "text": "Stateful generated search: histories of add / File.Render / Statement.RenderWithFile / Group.RenderWithFile / ImportName / ImportAlias / Anon / PackagePrefix / CanonicalPath over one File and a pool of statements (case blocks with nil, null, empty and captured bodies, Dicts with qualified keys); invariants after every step: back-to-back renders equal, unchanged objects render as before, qualifier per path fixed at first sighting, the File's import block declares every sighted path under the modelled name and resolves through go/types; fragments that cannot be formatted fail the same way every time and leave nothing behind; File renders go through Render, GoString or Save; a group kept from a ...Func callback and filled after early renders shows its items.",
   "note": TB + " Anon on an already sighted path is excluded, as in the property.",
   "technique": "stateful property-based testing (rapid) with history invariants and a first-sighting name model",
  },
  "C09": {
-  "text": "Generated job sets (4..16 File recipes with competing import names): concurrent build+render on one goroutine per job behind a barrier (20 / 200 rounds, cold start: paths unique to the case) under the race detector, then solo references and three sequential permutations in two interleavings, all compared byte-for-byte with the solo output; every other concurrent round goes through File.Save into one directory; plus Files sharing the same Code values rendered one after another vs unshared twins; plus 8..14 Files of 2400..3600 nested groups rendered alone and all at once; plus a differential against a re-executed fresh process for Files of confusable literals (the in-process reference would share process-wide state with the render under test). Goroutine interleavings are sampled by the scheduler, not enumerated.",
+  "text": "Generated job sets (4..16 File recipes with competing import names): concurrent build+render on one goroutine per job behind a barrier (20 / 200 rounds, cold start: paths unique to the case) under the race detector, then solo references and three sequential permutations in two interleavings, all compared byte-for-byte with the solo output; every other concurrent round goes through File.Save into one directory, over targets that hold near variants of the output; shared values are built under the form policy (LitFunc callbacks that run late answer differently); plus Files sharing the same Code values rendered one after another vs unshared twins; plus 8..14 Files of 2400..3600 nested groups rendered alone and all at once; plus a differential against a re-executed fresh process for Files of confusable literals (the in-process reference would share process-wide state with the render under test). Goroutine interleavings are sampled by the scheduler, not enumerated.",
   "note": TB + " Go race detector (-race build of /repo and the harness).",
   "technique": "differential property (solo vs sequential vs concurrent schedules vs fresh process) over rapid-generated job sets under the Go race detector",
  },
  "C10": {
   "level": "fault_enumeration",
-  "text": "For every generated tree (valid programs and invalid random trees) the complete fault matrix is executed: 5 writer-based entry points x 6 writer behaviours, and File.Save x 7 filesystem situations on a real filesystem; assertions: a failing render performs zero Write calls and leaves an existing target's bytes and mtime untouched, injected writer/FS errors come back non-nil, success delivers exactly the reference bytes (also into a writer that renders other code inside Write, also for NoFormat Files; fragment renders behave alike with a NoFormat context File and its formatted twin). Per-cell counts are in the evidence.",
+  "text": "For every generated tree (valid programs and invalid random trees) the complete fault matrix is executed: 5 writer-based entry points x 16 writer behaviours (incl. EPIPE, io.ErrClosedPipe, wrapped and *os.PathError forms, io.EOF, context.Canceled, ENOSPC; real pipes whose reading end is closed), trees whose rendering panics after other items were rendered (the caller's *bytes.Buffer and an instrumented writer are as they were), and File.Save x 7 filesystem situations on a real filesystem; assertions: a failing render performs zero Write calls and leaves an existing target's bytes and mtime untouched, injected writer/FS errors come back non-nil, success delivers exactly the reference bytes (also into a writer that renders other code inside Write, also for NoFormat Files; fragment renders behave alike with a NoFormat context File and its formatted twin). Per-cell counts are in the evidence.",
   "note": TB + " Runs as root: permission faults are not used; short writes without error are not injected (they violate io.Writer).",
   "technique": "fault enumeration (writer and filesystem fault matrix) x rapid-generated trees",
  },
  "C11": {
-  "text": "Exhaustive over bool, int8, uint8 (thorough: int16, uint16) and float64 decades 1e-330..1e310; rapid boundary/random values for all 16 supported numeric types; each rendered literal is evaluated with go/types.Eval and compared with the Go value and type (LitFunc: same bytes as Lit, callback ran once); the literal chained into 17 statement contexts must leave the statement as it is with an identifier in its place; every literal is also rendered as a fragment (GoString, Render, RenderWithFile), partly after fragment renders that failed.",
+  "text": "Exhaustive over bool, int8, uint8 (thorough: int16, uint16) and float64 decades 1e-330..1e310; rapid boundary/random values for all 16 supported numeric types; each rendered literal is evaluated with go/types.Eval and compared with the Go value and type (LitFunc: same bytes as Lit, callback ran once); the literal chained into 21 statement contexts (incl. declarations that name an interface type) must leave the statement as it is with an identifier in its place; every literal is also rendered as a fragment (GoString, Render, RenderWithFile), partly after fragment renders that failed; batches of 3..8 literal tables rendered at once on goroutines of their own, every element judged by value and type.",
   "note": TB + " Finite values only.",
   "technique": "exhaustive small domains + property-based testing (rapid) with go/types.Eval / go/constant as value-and-type oracle",
  },
  "C12": {
-  "text": "Strings: rapid byte strings biased to hostile characters (thorough 1.6M + native fuzzing); runes: all code points < 0x300 plus strided sample (thorough: all 1,112,064 valid code points); bytes: all 256. Oracle: go/scanner token shape of `a := <lit>; b`, strconv.Unquote / go/types.Eval value and type; exact string lengths 0..130 and 2^k±1; string, rune and byte literals of the same characters mixed in one File must each render as they do alone, also next to imports of packages named like predeclared types (the File is type-checked).",
+  "text": "Strings: rapid byte strings biased to hostile characters (thorough 1.6M + native fuzzing); runes: all code points < 0x300 plus strided sample (thorough: all 1,112,064 valid code points); bytes: all 256. Oracle: go/scanner token shape of `a := <lit>; b`, strconv.Unquote / go/types.Eval value and type; exact string lengths 0..130 and 2^k±1; string, rune and byte literals of the same characters mixed in one File must each render as they do alone, also next to imports of packages named like predeclared types (the File is type-checked); batches of 3..8 such tables judged at once on goroutines of their own; a sample of the renders also through GoString and Save over a near variant of the output.",
   "note": TB,
   "technique": "exhaustive rune/byte enumeration + property-based testing (rapid) + native fuzzing with scanner-shape and round-trip oracles",
  },
  "C14": {
-  "text": "API enumerated from /repo/jen sources at check time (triples and ...Func companions must exist with identical parameters); for every construct >= 50 generated argument lists compared across function form, method form, Add, *Group method (append + return identity) and ...Func variants, with GoString/Render/RenderWithFile agreement over three repetitions and callback counters (exactly once, never late); seven continuations chained onto every form; the caller's slice is left as it was and usable a second time; form policy applied at every call of real programs vs the all-method build.",
+  "text": "API enumerated from /repo/jen sources at check time (triples and ...Func companions must exist with identical parameters); for every construct >= 50 generated argument lists compared across function form, method form, Add, *Group method (append + return identity) and ...Func variants, with GoString/Render/RenderWithFile agreement over three repetitions and callback counters (exactly once, never late); seven continuations chained onto every form; the caller's slice is left as it was and usable a second time; form policy applied at every call of real programs vs the all-method build and to every generated call (callback groups completed after the ...Func call returned, Commentf operands that format themselves and answer differently when formatted late).",
   "note": TB + " Reflection over the compiled API; package functions come from a generated table checked against the sources.",
   "technique": "API-enumerating property-based testing (rapid): cross-form byte equality, callback counting, metamorphic form policy on corpus programs",
  },
  "C15": {
-  "text": "Comment policy applied to every Block/Defs/Struct/Interface/case body/File of real programs and of generated programs, with generated texts: go/scanner code-token sequence with comments must equal the one without (NoFormat and formatted), and the NoFormat output's comments must be exactly the given texts in line or block style; generated file-level settings: package doc iff package comments, headers apart from it by a blank line, import annotation unquotes to the canonical path; settings made after a first render must give what a File configured that way from the start gives.",
+  "text": "Comment policy applied to every Block/Defs/Struct/Interface/case body/File of real programs and of generated programs, with generated texts: go/scanner code-token sequence with comments must equal the one without (NoFormat and formatted), and the NoFormat output's comments must be exactly the given texts in line or block style; generated file-level settings: package doc iff package comments, headers apart from it by a blank line, import annotation unquotes to the canonical path; settings made after a first render must give what a File configured that way from the start gives; where the comment-free output parses the output with comments must parse too. Input classes of the known findings KF2 and KF3 (gofmt) are excluded from the formatted half and counted.",
   "note": TB + " Text compared on NoFormat output only (gofmt rewrites doc comments).",
   "technique": "metamorphic property (comment injection) over corpus and rapid-generated programs; structural oracle via go/parser comment groups",
  },
  "C16": {
-  "text": "Generated Dicts of 0..20 (one in 25: 31..257) pairs with colliding / identical key texts, null sides by construction, qualified keys and nested values: the composite literal parsed from raw and formatted output must hold each live pair exactly once with its own value, raw key texts non-decreasing, same sequence after gofmt, inline for one pair and one per line for several, {} when all null; a placeholder filled or a key continued in place between renders of one File gives what a Dict built that way gives, also after early renders that panicked; one Dict value used by two statements renders twice what it renders once.",
+  "text": "Generated Dicts of 0..20 (one in 25: 31..257) pairs with colliding / identical key texts, null sides by construction, qualified keys and nested values: the composite literal parsed from raw and formatted output must hold each live pair exactly once with its own value, raw key texts non-decreasing, same sequence after gofmt, inline for one pair and one per line for several, {} when all null; a placeholder filled or a key continued in place between renders of one File gives what a Dict built that way gives, also after early renders that panicked; one Dict value used by two statements renders twice what it renders once; half the cases are built under the form policy (literals through callbacks that answer differently when run late).",
   "note": TB + " Order is judged on raw key text, the documented sort key.",
   "technique": "property-based testing (rapid) with a parsed-literal multiset/order/layout oracle",
  },
  "C17": {
-  "text": "Generated tag maps (0..8 conventional keys to hostile byte strings; thorough 1.6M + native fuzzing): exactly one STRING token, strconv.Unquote, reflect.StructTag.Lookup returns every value, keys sorted, empty map renders nothing; raw and formatted output agree; 4..16 maps rendered concurrently on goroutines of their own round-trip as they do alone; one map given to several Tag calls is left as it was.",
+  "text": "Generated tag maps (0..8 conventional keys to hostile byte strings; thorough 1.6M + native fuzzing): exactly one STRING token, strconv.Unquote, reflect.StructTag.Lookup returns every value, keys sorted, empty map renders nothing; raw and formatted output agree; 4..16 maps rendered concurrently on goroutines of their own round-trip as they do alone; one map given to several Tag calls is left as it was; fields also assembled as Add(name, type).Tag(m) from a caller slice that is used again.",
   "note": TB,
   "technique": "round-trip property (rapid + native fuzzing) through strconv.Unquote and reflect.StructTag",
  },
